@@ -124,6 +124,32 @@ theorem C04_arm_timeOfFloat (ext : Ext F) (s : Scalar) (v : GoVal F)
   | flt k x => cases s <;> cases k <;> coerce_fin_in
   | _ => cases s <;> coerce_fin_in
 
+theorem C04_arm_timeOfIntChk (ext : Ext F) (s : Scalar) (v : GoVal F)
+    (hs : armSoundIn s v.kind .timeOfIntChk = true) (hw : v.wf = true) :
+    checkIn ext s v (applyAction ext .timeOfIntChk v) = true := by
+  cases v with
+  | int k n =>
+    simp only [applyAction]
+    split
+    · cases s <;> cases k <;> coerce_fin_in
+    · simp [checkIn]
+  | flt k x => cases s <;> cases k <;> coerce_fin_in
+  | _ => cases s <;> coerce_fin_in
+
+theorem C04_arm_timeOfFloatChk (ext : Ext F) (s : Scalar) (v : GoVal F)
+    (hs : armSoundIn s v.kind .timeOfFloatChk = true) (hw : v.wf = true) :
+    checkIn ext s v (applyAction ext .timeOfFloatChk v) = true := by
+  cases v with
+  | int k n => cases s <;> cases k <;> coerce_fin_in
+  | flt k x =>
+    simp only [applyAction]
+    split
+    · split
+      · cases s <;> cases k <;> coerce_fin_in
+      · simp [checkIn]
+    · simp [checkIn]
+  | _ => cases s <;> coerce_fin_in
+
 theorem C04_arm_timeParseKeep (ext : Ext F) (s : Scalar) (v : GoVal F)
     (hs : armSoundIn s v.kind .timeParseKeep = true) (hw : v.wf = true) :
     checkIn ext s v (applyAction ext .timeParseKeep v) = true := by
@@ -222,6 +248,8 @@ theorem C04_arm (ext : Ext F) (laws : ExtLaws ext) (s : Scalar) (a : Action) (v 
   | parseIntKeep t => exact C04_arm_parseIntKeep ext s t v hs hw
   | timeOfInt => exact C04_arm_timeOfInt ext s v hs hw
   | timeOfFloat => exact C04_arm_timeOfFloat ext s v hs hw
+  | timeOfIntChk => exact C04_arm_timeOfIntChk ext s v hs hw
+  | timeOfFloatChk => exact C04_arm_timeOfFloatChk ext s v hs hw
   | timeParseKeep => exact C04_arm_timeParseKeep ext s v hs hw
   | fmtFloat bits => exact C04_arm_fmtFloat ext s bits v hs hw
   | parseFloatKeep t => exact C04_arm_parseFloatKeep ext s t v hs hw
